@@ -89,7 +89,7 @@ CHECKS["C12"] = {
         {"pkg": MUX, "run": "^TestVerif_C12_OpenRace$", "checks": {"quick": 300, "thorough": 20000}, "shards": {"thorough": 8}, "timeout": {"quick": 300}},
         {"pkg": MUX, "run": "^TestVerif_C12_AcceptBacklog$", "realtime": True, "checks": {"quick": 40, "thorough": 2000}, "shards": {"thorough": 8}, "timeout": {"quick": 900}},
         {"pkg": MUX, "run": "^TestVerif_C12_UnreadBacklog$", "realtime": True, "checks": {"quick": 10, "thorough": 300}, "shards": {"thorough": 4}, "timeout": {"quick": 900}},
-        {"pkg": MUX, "run": "^TestVerif_C12_CloseRace$", "realtime": True, "checks": {"quick": 30, "thorough": 2000}, "shards": {"thorough": 8}, "timeout": {"quick": 900}},
+        {"pkg": MUX, "run": "^TestVerif_C12_CloseRace$", "realtime": True, "checks": {"quick": 80, "thorough": 2000}, "shards": {"thorough": 8}, "timeout": {"quick": 900}},
         {"pkg": MUX, "run": "^TestVerif_C12_Inactivity$", "checks": {"quick": 1500, "thorough": 150000}, "shards": {"thorough": 16}, "timeout": {"quick": 300}},
     ],
 }
